@@ -320,4 +320,100 @@ theorem run_keys (evs : List Ev) : ∀ s : St, (run s evs).keys = s.keys := by
 theorem start_keys (keys : List Cid) : (start keys).keys = keys := by
   unfold start; split <;> rfl
 
+/-- copies of `c` that are past the subscription: in a channel, in a goroutine's hand, or delivered -/
+def inFlight (s : St) (c : Cid) : Nat :=
+  s.vbuf.count c + s.fHeld.toList.count c + s.bbuf.count c + s.hHeld.toList.count c + s.delivered.count c
+
+/-- without a publish of `c`, no copy of `c` ever appears behind the subscription -/
+theorem step_nopub_inFlight (s : St) (e : Ev) (s' : St) (c : Cid) (he : e ≠ .publish c) (hs : step s e = some s')
+    (h : inFlight s c = 0) : inFlight s' c = 0 := by
+  cases e with
+  | publish c' =>
+    have hne : c' ≠ c := fun x => he (by rw [x])
+    simp only [step] at hs
+    split at hs
+    · simp only [Option.some.injEq] at hs; subst hs
+      have : (c' == c) = false := by simpa using hne
+      simp only [inFlight, List.count_append, List.count_singleton, this] at h ⊢
+      simpa using h
+    · simp only [Option.some.injEq] at hs; subst hs; exact h
+  | cancel => simp only [step, Option.some.injEq] at hs; subst hs; exact h
+  | sessCancel => simp only [step, Option.some.injEq] at hs; subst hs; exact h
+  | fRecv =>
+    simp only [step] at hs
+    split at hs
+    · simp at hs
+    · rename_i hcond
+      simp only [Bool.or_eq_true, not_or, Bool.not_eq_true, Option.isSome_eq_false_iff, Option.isNone_iff_eq_none] at hcond
+      split at hs
+      · rename_i c0 r hv
+        simp only [Option.some.injEq] at hs; subst hs
+        simp only [inFlight, hv, hcond.2, List.count_cons, Option.toList_some, Option.toList_none, List.count_nil] at h ⊢
+        omega
+      · split at hs
+        · simp only [Option.some.injEq] at hs; subst hs
+          simp only [inFlight, fExit, Option.toList_none, List.count_nil] at h ⊢; omega
+        · simp at hs
+  | fSend =>
+    simp only [step] at hs
+    split at hs
+    · simp at hs
+    · split at hs
+      · rename_i c0 hh
+        simp only [Option.some.injEq] at hs; subst hs
+        simp only [inFlight, hh, List.count_append, Option.toList_some, Option.toList_none, List.count_nil,
+          List.count_cons] at h ⊢
+        omega
+      · simp at hs
+  | fCtx =>
+    simp only [step] at hs
+    split at hs
+    · simp only [Option.some.injEq] at hs; subst hs
+      simp only [inFlight, fExit, Option.toList_none, List.count_nil] at h ⊢; omega
+    · simp at hs
+  | hRecv =>
+    simp only [step] at hs
+    split at hs
+    · simp at hs
+    · rename_i hcond
+      simp only [Bool.or_eq_true, not_or, Bool.not_eq_true, Option.isSome_eq_false_iff, Option.isNone_iff_eq_none] at hcond
+      split at hs
+      · rename_i c0 r hb
+        simp only [Option.some.injEq] at hs; subst hs
+        simp only [inFlight, hb, hcond.2, List.count_cons, Option.toList_some, Option.toList_none, List.count_nil] at h ⊢
+        omega
+      · split at hs
+        · simp only [Option.some.injEq] at hs; subst hs
+          simp only [inFlight, hExit, Option.toList_none, List.count_nil] at h ⊢; omega
+        · simp at hs
+  | hCtx =>
+    simp only [step] at hs
+    split at hs
+    · simp only [Option.some.injEq] at hs; subst hs
+      simp only [inFlight, hExit, Option.toList_none, List.count_nil] at h ⊢; omega
+    · simp at hs
+  | read =>
+    simp only [step] at hs
+    split at hs
+    · simp at hs
+    · split at hs
+      · rename_i c0 hh
+        simp only [Option.some.injEq] at hs; subst hs
+        simp only [inFlight, hh, List.count_append, Option.toList_some, Option.toList_none, List.count_nil,
+          List.count_cons] at h ⊢
+        omega
+      · simp at hs
+
+theorem run_nopub_inFlight (c : Cid) (evs : List Ev) (hev : ∀ e ∈ evs, e ≠ .publish c) :
+    ∀ s : St, inFlight s c = 0 → inFlight (run s evs) c = 0 := by
+  induction evs with
+  | nil => intro s h; exact h
+  | cons e r ih =>
+    intro s h
+    simp only [run]
+    have hr : ∀ e ∈ r, e ≠ .publish c := fun x hx => hev x (List.mem_cons_of_mem _ hx)
+    cases hs : step s e with
+    | none => simpa using ih hr s h
+    | some s' => simpa using ih hr s' (step_nopub_inFlight s e s' c (hev e (List.mem_cons_self ..)) hs h)
+
 end C37
